@@ -11,11 +11,11 @@ Open Scope N_scope.
 (* ---- deployments *)
 (* every RoutingTable on one store (memory.Storage / redis.Storage / one hybrid.Storage) *)
 Definition cfg_direct (ttl : N) (ident : bool) : cfg :=
-  mkCfg (new_table_ttl DefaultTTLns ttl) NodeAddressTTLns WaitPrefix NodePrefix NodeSuffix (fun _ => true) ident.
+  mkCfg (new_table_ttl DefaultTTLns ttl) NodeAddressTTLns WaitPrefix NodePrefix NodeSuffix (fun _ => true) ident LookupDeletesExpired.
 (* one hybrid.Storage per node with hybrid.DefaultConfig(), with / without a shared cache *)
 Definition cfg_hybrid (has_shared_cache : bool) (ttl : N) : cfg :=
   mkCfg (new_table_ttl DefaultTTLns ttl) NodeAddressTTLns WaitPrefix NodePrefix NodeSuffix
-        (hybrid_route has_shared_cache HybridSharedPersistent HybridShared) ShapeIdentHybridShared.
+        (hybrid_route has_shared_cache HybridSharedPersistent HybridShared) ShapeIdentHybridShared LookupDeletesExpired.
 
 (* 1 *)
 Lemma default_ttl_positive : 0 < DefaultTTLns.
@@ -117,6 +117,8 @@ Lemma ex_run :
   /\ ex_lookup c s2 1 (w_tunnel ex_rec) = ROk (stamp ex_rec 0 30000000000)
   /\ ex_lookup c (ex_final c s2 [OTick 1000 0]) 1 (w_tunnel ex_rec) = ROk (stamp ex_rec 0 30000000000)
   /\ ex_lookup c (ex_final c s2 [OTick 1001 0]) 1 (w_tunnel ex_rec) = RExpired
+  /\ ex_lookup c (ex_final c s2 [OTick 1001 0; OLookup 2 (w_tunnel ex_rec)]) 1 (w_tunnel ex_rec)
+     = (if LookupDeletesExpired then RNotFound else RExpired)
   /\ ex_lookup c (ex_final c s2 [OTick 0 1101]) 1 (w_tunnel ex_rec) = RNotFound
   /\ ex_lookup c (ex_final c s2 [ORemove 2 (w_tunnel ex_rec)]) 1 (w_tunnel ex_rec) = RNotFound
   /\ snd (ex_step c s2 (OGetAddr 1 [110;111;100;101;45;48])) = RAddr [49;48;46;48;46;48;46;49].
@@ -134,3 +136,27 @@ Lemma ex_unshared_cross_node :
   ex_lookup c s1 0 (w_tunnel ex_rec) = ROk (stamp ex_rec 0 30000000000)
   /\ ex_lookup c s1 1 (w_tunnel ex_rec) = RNotFound.
 Proof. vm_compute. split; reflexivity. Qed.
+
+(* ---- the Get..Delete window of LookupWaitingTunnel (tree as found: c_del_expired = true).  Node 1's lookup has read the
+   EXPIRED first registration; node 0 registers the id again; node 1's Delete then removes the FRESH record: it does
+   not resolve although it was registered a nanosecond ago.  Executed atomically in either order the same two calls
+   leave the fresh record routable.  (Replayed on the real code by the harness' schedule probe.) *)
+Definition race_cfg (del : bool) : cfg :=
+  mkCfg 30000000000 NodeAddressTTLns WaitPrefix NodePrefix NodeSuffix (fun _ => true) false del.
+Definition race_cell : cell := (None, wait_key (race_cfg true) (w_tunnel ex_rec)).
+
+Lemma ex_split_lookup_loses_fresh_registration :
+  let c := race_cfg true in
+  let s0 := ex_final c (fst (ex_step c (init ex_gstr) (ORegister 0 ex_rec))) [OTick 30000000001 0] in
+  (* node 1 reads: the stored record is expired, so it is going to delete the key *)
+  snd (ex_step c s0 (OLookup 1 (w_tunnel ex_rec))) = RExpired
+  (* node 0 registers again, then node 1's pending Delete lands *)
+  /\ let s1 := fst (ex_step c s0 (ORegister 0 ex_rec)) in
+     ex_lookup c s1 1 (w_tunnel ex_rec) = ROk (stamp ex_rec 30000000001 60000000001)
+     /\ ex_lookup c (st_del ex_gstr s1 race_cell) 1 (w_tunnel ex_rec) = RNotFound
+  (* atomic executions of the same two calls, both orders *)
+  /\ ex_lookup c (ex_final c s0 [OLookup 1 (w_tunnel ex_rec); ORegister 0 ex_rec]) 1 (w_tunnel ex_rec)
+     = ROk (stamp ex_rec 30000000001 60000000001)
+  /\ ex_lookup c (ex_final c s0 [ORegister 0 ex_rec; OLookup 1 (w_tunnel ex_rec)]) 1 (w_tunnel ex_rec)
+     = ROk (stamp ex_rec 30000000001 60000000001).
+Proof. vm_compute. repeat split; reflexivity. Qed.
